@@ -84,7 +84,7 @@ def run(ctx):
     lap("design")
     exh = generate(ctx, ctx.q("MC_Rebase", "MC_Rebase_thorough"), timeout=ctx.q(600, 2400))
     lap("exhaustive")
-    sim = generate(ctx, "MC_Rebase_sim", simulate="num=%d" % ctx.q(25, 400), workers=1, timeout=ctx.q(600, 2400))
+    sim = generate(ctx, "MC_Rebase_sim", simulate="num=%d" % ctx.q(25, 150), workers=1, timeout=ctx.q(600, 2400))
     lap("sim")
     negs = [("shortcut", "InvLaws"), ("swap", "InvLaws"), ("identity", "InvIdentity"), ("roundtrip", "InvRoundTrip")]
 
@@ -96,7 +96,7 @@ def run(ctx):
             ctx.cov["tlc_runs"].append({"run": "negative:" + b[0], "outcome": "fails as required (%s)" % b[1]})
     lap("negs")
     # 2. binding
-    bound = exh if not ctx.thorough else rnd.sample(exh, min(len(exh), 30000))
+    bound = exh if not ctx.thorough else rnd.sample(exh, min(len(exh), 15000))
     casefile = ctx.path("c08-cases.ndjson")
     with open(casefile, "w") as f:
         for c in bound + sim:
